@@ -39,6 +39,9 @@ def generate(rng, tier):
     out += sc.gen_enter_effects(rng, 40 * n)
     out += sc.gen_hookraise(rng, 30 * n)
     out += sc.gen_sysexit(rng, 40 * n)      # a doer calling sys.exit(): the same forced exits and the same SystemExit
+    # a Doist that already holds deeds (a hand-driven enter() and some recur()s, never exited) is then given the
+    # doers again with do(doers=...) / ado(doers=...): both start from scratch
+    out += sc.gen_manual(rng, 40 * n, thens=("do",))
     return out
 
 
